@@ -7,7 +7,7 @@ tie   : T-cor - the extracted model and the real containers (kit managers / allo
 oracle: the property predicate evaluated inside harness.cpp on the real code (independent of the model)."""
 import os, sys, importlib.util
 
-NATIVE = ['Array', 'ArrayIC', 'Seg', 'HashSet', 'HashSetThm', 'HashMap', 'HashMulti', 'TreeSet', 'TreeMap']
+NATIVE = ['Array', 'ArrayIC', 'Seg', 'HashSet', 'HashMap', 'HashMulti', 'TreeSet', 'TreeMap']
 WRAP = ['vec', 'set', 'mset', 'map', 'mmap', 'uset', 'umap', 'ummap']
 CREW_WRAP = ['set', 'mset', 'map', 'mmap', 'uset', 'umap', 'ummap']
 ARRAYS = ['Array', 'ArrayIC', 'Seg', 'vec']
@@ -35,8 +35,9 @@ def states_for(kind, role):
         return ['e', 'n1', 'n5', 'n40', 'c9'] if role == 's' else ['e', 'n3', 'c9']
     if kind == 'ArrayIC':
         return ['e', 'i1', 'i3', 'i4', 'n5', 'n40', 'c9'] if role == 's' else ['e', 'i2', 'n9']
-    if kind in ('HashSet', 'HashMap', 'uset', 'umap', 'HashSetThm'):
-        return (['e', 'n1', 'n10', 'c10', 'n100'] + ['g%d' % k for k in (4, 5, 7, 8, 9, 13, 15, 17, 25, 29, 33)]) if role == 's' else ['e', 'n3', 'g9', 'c5']
+    if kind in ('HashSet', 'HashMap', 'uset', 'umap'):
+        # default bucket: capacity 32, 128, 512 -> the 33rd / 129th insertion grows
+        return ['e', 'n1', 'n10', 'c10', 'n100', 'g33', 'h33', 'g129', 'h129'] if role == 's' else ['e', 'n3', 'h33', 'c5']
     if kind in ('TreeSet', 'TreeMap'):
         return ['e', 'n1', 'n7', 'c10', 'd60', 'd300'] if role == 's' else ['e', 'n3', 'd40']
     if kind in ('set', 'mset', 'map', 'mmap'):
@@ -86,7 +87,6 @@ def gen_cases(ctx, scale):
                 if int(tr if tr != 'N' else 0) >= 16 and kind != 'vec': continue
                 ops = ['copyc', 'copyca', 'movec', 'copya', 'movea', 'swap', 'selfcopya', 'selfmovea', 'selfswap', 'none']
                 if fam == 'W': ops.append('moveca')
-                if kind == 'HashSetThm': ops = ['copyc', 'movec', 'movea', 'swap', 'copya']
                 for op in ops:
                     for ss in states_for(kind, 's'):
                         tss = states_for(kind, 't')
